@@ -913,6 +913,64 @@ func main() {
 		fmt.Fprintf(&out, "Definition cleanup_closes_stop_channel : bool := %v.\n", closes)
 	}
 
+	// does a crl found in a persistent store count without a check (newEntry.Loaded = true), or only after
+	// persistedCRLCounts: not under verify unless its verifying certificate is stored and still entitled?
+	{
+		rp := parseFile("crl/crlrepository/crlrepository.go")
+		checked, found := false, false
+		ast.Inspect(findFunc(rp, "addNewEmptyEntry").Body, func(n ast.Node) bool {
+			as, ok := n.(*ast.AssignStmt)
+			if !ok || len(as.Lhs) != 1 || len(as.Rhs) != 1 || selName(as.Lhs[0]) != "Loaded" {
+				return true
+			}
+			found = true
+			switch r := as.Rhs[0].(type) {
+			case *ast.Ident:
+				if r.Name != "true" {
+					die("addNewEmptyEntry: Loaded assigned from %s", r.Name)
+				}
+			case *ast.CallExpr:
+				if selName(r.Fun) != "persistedCRLCounts" {
+					die("addNewEmptyEntry: Loaded assigned from an unknown call")
+				}
+				checked = true
+			default:
+				die("addNewEmptyEntry: unexpected assignment to Loaded")
+			}
+			return true
+		})
+		if !found {
+			die("addNewEmptyEntry: no assignment to Loaded")
+		}
+		if checked {
+			// the shape of the check itself: verify-only guard, stored certificate required, entitlement + equality
+			fn := findFunc(rp, "persistedCRLCounts")
+			var guard, stored, entitled, equal bool
+			ast.Inspect(fn.Body, func(n ast.Node) bool {
+				switch x := n.(type) {
+				case *ast.BinaryExpr:
+					if x.Op == token.NEQ && selName(x.X) == "SignatureValidationModeParsed" && selName(x.Y) == "SignatureValidationModeVerify" {
+						guard = true
+					}
+				case *ast.CallExpr:
+					switch selName(x.Fun) {
+					case "GetCRLSignatureCert":
+						stored = true
+					case "IsEntitledCRLSigner":
+						entitled = true
+					case "Equal":
+						equal = true
+					}
+				}
+				return true
+			})
+			if !(guard && stored && entitled && equal) {
+				die("persistedCRLCounts: shape not recognised (guard=%v stored=%v entitled=%v equal=%v)", guard, stored, entitled, equal)
+			}
+		}
+		fmt.Fprintf(&out, "Definition persisted_adoption_checked : bool := %v.\n", checked)
+	}
+
 	pr := parseFile("core/pemreader/pemreader.go")
 	fmt.Fprintf(&out, "Definition pem_max_line_length : nat := %s.\n", evalConst(findConst(pr, "pemMaxLineLength"), nil).ExactString())
 	{
